@@ -179,6 +179,8 @@ func (c *cursorManager) GetCursor(ctx context.Context, streamName, cursorID stri
 		return 0, status.New(codes.Internal, err.Error())
 	}
 
+	verifGate("cursors.fetch.scanned")
+
 	// Cache the offset.
 	c.mu.Lock()
 	c.cache.Add(string(cursorKey), offset)
